@@ -83,6 +83,53 @@ class sym_float(metaclass=_FloatMeta):
         return builtins.float(x)
 
 
+class SymRange:
+    """range() with a symbolic bound: iterating it concretises (bounded fork); loop cuts read .start/.stop."""
+
+    def __init__(self, start, stop, step=1):
+        self.start, self.stop, self.step = start, stop, step
+
+    def __iter__(self):
+        import operator
+
+        return iter(builtins.range(operator.index(self.start), operator.index(self.stop), operator.index(self.step)))
+
+    def __len__(self):
+        import operator
+
+        return len(builtins.range(operator.index(self.start), operator.index(self.stop), operator.index(self.step)))
+
+
+def sym_range(*a):
+    if builtins.any(isinstance(x, Sym) and x.n.op != "const" for x in a):
+        if len(a) == 1:
+            return SymRange(0, a[0])
+        return SymRange(*a)
+    import operator
+
+    return builtins.range(*[operator.index(x) for x in a])
+
+
+def _sym_minmax(is_min):
+    real_fn = builtins.min if is_min else builtins.max
+
+    def f(*args, **kw):
+        seq = list(args[0]) if len(args) == 1 else list(args)
+        if "key" in kw or not builtins.any(isinstance(x, Sym) and x.n.op != "const" for x in seq):
+            return real_fn(seq, **kw) if (seq or "default" in kw) else real_fn(seq)
+        acc = seq[0]
+        for x in seq[1:]:
+            a, b = E.node_of(acc), E.node_of(x)
+            acc = Sym(E.min_(a, b) if is_min else E.max_(a, b))
+        return acc
+
+    return f
+
+
+sym_min = _sym_minmax(True)
+sym_max = _sym_minmax(False)
+
+
 def sym_isinstance(obj, cls):
     return builtins.isinstance(obj, cls)
 
@@ -159,6 +206,9 @@ _BUILTIN_SHADOWS = {
     "float": sym_float,
     "print": sym_print,
     "round": sym_round,
+    "range": sym_range,
+    "min": sym_min,
+    "max": sym_max,
 }
 
 # names imported `from torch import X`
